@@ -743,6 +743,10 @@ subroutine solve_t(initial_values, t, min_iter, max_iter, tol, offset, convergen
      return
   end if
 
+  ! No errors so far (this is also the result if `max_iter` is zero and the
+  ! loop below never runs)
+  error_code = 0
+
   ! Solve
   do iteration = 1, max_iter
 
